@@ -24,7 +24,7 @@ RULE = ("Hypothesis-generated histories (<=20 ops) with Dynamic.time_dependent o
         "compositions; one instance may follow a generator assigned on the class after it got its own Parameter objects) drawn from small "
         "(name, seed) pools so that equal generators sit on different instances; oracle = first-value table keyed by "
         "(generator identity, time); a bounded Number raises for out-of-bounds values at every read at that time. Non-trivial = some (generator, time) is read at least twice with a different time "
-        "visited in between, or a context/push-pop encloses a jump; distinct = case hash.")
+        "visited in between, or a context/push-pop encloses a jump; distinct = case hash. Round 5: a generator undefined at time 0 (1 / ScaledTime: every read there raises), an instance holding a copy of a class-level generator, the time type changed inside a context (restore of time and type checked, nothing judged afterwards), identity-valued Choice under push / excursion / pop.")
 ASSUMPTIONS = [
     "generator identity is (kind, constructor parameters, name, seed); random generators are created with time_dependent=True",
     "param.random_seed is left at its default; times stay far below 2**32",
